@@ -109,7 +109,7 @@ C08Clause(I, cf, ev) ==
   ELSE IF ev.aux.oneshot.path # PathSig(ev.path) THEN "incremental-path-differs-from-one-shot"
   ELSE ""
 C09Clause(I, cf, ev) == IF ~WellFormed(ev.lat) THEN "lattice-not-well-formed"
-                        ELSE IF ev.dangling # << >> THEN "predecessor-object-is-not-the-lattice-entry" ELSE ""
+                        ELSE IF ev.dangling # << >> THEN "predecessor-object-or-key-anomaly" ELSE ""
 
 \* ---- conformance with the specification's own lattice (diagnostic)
 SpecStep(I, cf, ev) ==
